@@ -234,6 +234,9 @@ func (c *Client) Get(ctx context.Context, k client.ObjectKey, o client.Object, _
 	} else {
 		m, err = c.Store.Get(gvk, k.Namespace, k.Name)
 	}
+	if c.Sim != nil {
+		c.Store.LogRead(c.caller(ctx), "get", gvk, k.Namespace, k.Name, m, 0, err)
+	}
 	if err != nil {
 		return err
 	}
@@ -264,6 +267,9 @@ func (c *Client) List(ctx context.Context, l client.ObjectList, opts ...client.L
 		return injected("list")
 	}
 	ms, err := c.Store.ListAt(c.readSeq(gvk.GroupKind(), out, aux), gvk, lo.Namespace, lo.LabelSelector)
+	if c.Sim != nil {
+		c.Store.LogRead(c.caller(ctx), "list", gvk, lo.Namespace, sel, nil, len(ms), err)
+	}
 	if err != nil {
 		return err
 	}
